@@ -261,6 +261,69 @@ func (d *DetInformer) DeliverOne(api *API) bool {
 	return true
 }
 
+// Behind counts the events of this kind the cache has not been brought up to yet.
+func (d *DetInformer) Behind(api *API) int {
+	api.mu.Lock()
+	defer api.mu.Unlock()
+	n := 0
+	for i := d.cursor; i < len(api.Log); i++ {
+		if api.Log[i].Kind == d.Kind {
+			n++
+		}
+	}
+	return n
+}
+
+// Relist models a watch that broke (410 Gone, API server restart) while events were outstanding: the
+// reflector lists again and replaces the cache with the current state. As in client-go (DeltaFIFO.Replace),
+// changed objects are delivered as updates from the cached to the current version, new ones as adds, and
+// objects that disappeared meanwhile as deletes carrying a cache.DeletedFinalStateUnknown tombstone; the
+// intermediate versions are never seen. Returns the number of (updates+adds, tombstones).
+func (d *DetInformer) Relist(api *API) (int, int) {
+	api.mu.Lock()
+	objs := api.listLocked(d.Kind)
+	d.cursor = len(api.Log)
+	api.mu.Unlock()
+	var ns []notification
+	present := map[string]bool{}
+	for _, o := range objs {
+		key, _ := cache.MetaNamespaceKeyFunc(o)
+		present[key] = true
+		old, exists, _ := d.raw.GetByKey(key)
+		if !exists {
+			_ = d.raw.Add(o)
+			ns = append(ns, notification{typ: Added, obj: o})
+			continue
+		}
+		om, _ := meta.Accessor(old)
+		nm, _ := meta.Accessor(o)
+		if om.GetResourceVersion() == nm.GetResourceVersion() {
+			continue
+		}
+		_ = d.raw.Update(o)
+		ns = append(ns, notification{typ: Modified, old: old, obj: o})
+	}
+	changed := len(ns)
+	for _, old := range d.sortedList() {
+		key, _ := cache.MetaNamespaceKeyFunc(old)
+		if present[key] {
+			continue
+		}
+		_ = d.raw.Delete(old)
+		ns = append(ns, notification{typ: Deleted, obj: cache.DeletedFinalStateUnknown{Key: key, Obj: old}})
+	}
+	d.Delivered += len(ns)
+	for _, n := range ns {
+		for _, l := range d.listeners {
+			l.pending = append(l.pending, n)
+			if !d.Split {
+				d.flush(l)
+			}
+		}
+	}
+	return changed, len(ns) - changed
+}
+
 // Resync re-delivers every cached object as an update (old == new), like the periodic resync of client-go.
 func (d *DetInformer) Resync() {
 	for _, o := range d.sortedList() {
